@@ -100,5 +100,9 @@ Definition random_float (a b : float) (prec : option Z) : M float :=
            dom l <- mlift (r_py_int (PrimFloat.mul a sc));
            dom r <- mlift (r_py_int (PrimFloat.mul b sc));
            dom k <- randint l r;
-           ret (py_round_nd (py_truediv k (10 ^ p)) p)
+           (* min(max(round(k / 10**p, p), start), end): Python's two-argument max/min keep
+              the first argument unless the second is strictly greater / smaller *)
+           let x := py_round_nd (py_truediv k (10 ^ p)) p in
+           let y := if PrimFloat.ltb x a then a else x in
+           ret (if PrimFloat.ltb b y then b else y)
        end.
